@@ -101,8 +101,12 @@ func(_aes_cbc_dec_128_avx)
 	endbranch
 	FUNC_SAVE
 
+	test	arg5, arg5	; an empty message: nothing to read or write
+	jz	.done
+
         AES_CBC_DEC arg1, arg2, arg3, arg4, arg5, r10, 9
 
+.done:
 	FUNC_RESTORE
 	ret
 
